@@ -1,4 +1,5 @@
 -------------------------- MODULE MC_TraceStandardize --------------------------
 EXTENDS TraceStandardize
-PathsT == {[name |-> "a", kind |-> "npy"], [name |-> "b", kind |-> "npz"], [name |-> "c", kind |-> "raw"], [name |-> "d", kind |-> "npz"]}
+PathsT == {[name |-> "a", kind |-> "npy"], [name |-> "b", kind |-> "npz"], [name |-> "c", kind |-> "raw"], [name |-> "d", kind |-> "npz"],
+           [name |-> "e", kind |-> "raw"], [name |-> "f", kind |-> "raw"]}
 ===============================================================================
